@@ -62,6 +62,7 @@ def run(chk):
     background_dials(chk)
     failed_handshakes(chk)
     replacements(chk)
+    affinity_matrix(chk)
     chk.assumptions += ["arrivals do not overlap (the code documents the limit as approximate for simultaneous arrivals)",
                         "a peer that reconnects while still connected counts against the limit like any other connection (by design, not alarmed)"]
     if not quick:
@@ -164,6 +165,53 @@ def replacements(chk):
         mlist = sorted(x for x in dict(x.split(":") for x in mlast.split(" L=")[1].split(";"))["100"].strip("[]").split(",") if x)
         if final != mlist:
             chk.disagree(sc, "node 0 lists %s" % final, "NetModel.v: %s" % mlist, "simnet/netmodel-replacements")
+
+
+def affinity_matrix(chk):
+    """Every affinity against a node that is exactly at its limit (limits 0, 1, 2; unknown peers fill it first): High and
+    Allowed dialers are admitted, Never and unknown ones are not - in every run."""
+    scen, models, metas = [], [], []
+    for limit in (0, 1, 2):
+        rng = chk.rng
+        cmds = ["seed=%d delay=%d" % (rng.randrange(1 << 30), rng.choice([200, 2000])),
+                "node 0 key=10 name=n10 maxconn=%d ctimeout=500 idle=600000 keepalive=5000" % limit]
+        ops = []
+        for j in range(1, limit + 1):
+            cmds += ["node %d key=%d name=n10 idle=600000 keepalive=5000" % (j, 10 + j), "connect %d 0" % j, "sleep 300"]
+            ops.append("D %d 100" % j)
+        order = ["high", "allowed", "never", "none"]
+        rng.shuffle(order)
+        want = {}
+        for q, aff in enumerate(order):
+            j = 20 + q
+            cmds.append("node %d key=%d name=n10 idle=600000 keepalive=5000" % (j, 10 + j))
+            if aff != "none":
+                cmds.append("known 0 %d %s%s" % (j, aff, " addr=none" if aff == "high" else ""))
+                ops.append("K 100 %d %s" % (j, aff))
+            cmds += ["connect %d 0" % j, "sleep 300", "disconnect %d 0" % j, "sleep 300"]
+            ops += ["D %d 100" % j, "X %d 100" % j]
+            want[j] = aff in ("high", "allowed")
+        cmds.append("peers 0")
+        scen.append("simnet " + " ; ".join(cmds))
+        metas.append((limit, order, want))
+        spec = "100:10:-:%d;" % limit + ";".join("%d:10:-:-" % j for j in list(range(1, limit + 1)) + [20, 21, 22, 23])
+        models.append("netmodel %s | %s" % (spec, " / ".join(ops)))
+    outs, parsed = simnet.run_scenarios(chk, scen, "fabric:affinity-at-the-limit")
+    for sc, res, (limit, order, want), mo in zip(scen, parsed, metas, run_model(models)):
+        if res is None:
+            continue
+        chk.nontriv(sc)
+        cl = [c.strip() for c in sc[len("simnet "):].split(" ; ")][1:]
+        mres = mo.split(" | ")
+        for j, w in want.items():
+            got = res[cl.index("connect %d 0" % j)].startswith("ok")
+            chk.count("at-the-limit:%s:%s" % (order[j - 20], "admitted" if got else "refused"))
+            if got != w:
+                chk.monitor_fail("node at its limit of %d: a dialer with affinity %s was %s" % (limit, order[j - 20], "admitted" if got else "refused"), dict(case=sc))
+        mdials = [x.split(" L=")[0] for x in mres if x.startswith(("ok", "err"))]
+        idials = [("ok100" if res[k].startswith("ok") else "err") for k, c in enumerate(cl) if c.startswith("connect ") and c.endswith(" 0")]
+        if [x for x in mdials] != idials:
+            chk.disagree(sc, "dial results %s" % idials, "NetModel.v: %s" % mdials, "simnet/netmodel-affinity-matrix")
 
 
 def failed_handshakes(chk):
